@@ -44,7 +44,7 @@ def ids_of(text):
 def scenario(ctx, seed):
     rng = random.Random(seed)
     g = gen.Gen(random.Random(rng.randint(0, 2 ** 60)), size=rng.randint(3, 8),
-                feat=dict(deps=0.5, rsp=0.2, multi=0.3, restat=0.25, phony=0.2, vals=0.2, generator=0.05, pools=0.2))
+                feat=dict(deps=0.5, rsp=0.2, multi=0.3, restat=0.25, phony=0.2, vals=0.2, generator=0.05, pools=0.2, dyndep=0.0))
     sc = g.scenario("C19-%d" % seed)
     t = e2e.Tree(sc)
     rep = {"seed": seed}
